@@ -123,15 +123,23 @@ Definition op_set_clip (i : Z) (v : bool) (d : doc) : doc :=
   mkDoc (mode d) (compute (mode d) (map (set_flag_t i v) (lay d))).
 (* psd.compatibility_mode = m  (psd_image.py:495-498) *)
 Definition op_set_mode (m : compat) (d : doc) : doc := mkDoc m (compute m (lay d)).
-(* psd[i+1].move_down(): the two top-level neighbours swap; nothing is recomputed
-   (GroupMixin.remove/insert only set _updated_layers) *)
+(* psd[i+1].move_down(): the two top-level neighbours swap (Layer.move_up = parent.remove + parent.insert) *)
 Fixpoint swap_at {A} (i : nat) (l : list A) : list A :=
   match i, l with
   | O, x :: y :: r => y :: x :: r
   | S i', x :: r => x :: swap_at i' r
   | _, _ => l
   end.
-Definition op_swap (i : nat) (d : doc) : doc := mkDoc (mode d) (swap_at i (lay d)).
+(* as the code was before /repo commit edc9f34: GroupMixin.remove/insert only set _updated_layers, nothing
+   was recomputed.  Kept as the record of finding F-C15-1 (Properties/C15.v stale_after_move_refuted). *)
+Definition op_swap_stale (i : nat) (d : doc) : doc := mkDoc (mode d) (swap_at i (lay d)).
+(* since edc9f34: remove and insert both end in _update_psd_record, which calls
+   psd._compute_clipping_layers().  Each of the two recomputations clears every layer of the tree first, so
+   the state after the insert is one computation on the final order (the layer that is out of the tree
+   between the two calls is cleared again by the second one).  The harness issues the call only when
+   psd[i+1] exists. *)
+Definition op_swap (i : nat) (d : doc) : doc :=
+  if (S i <? length (lay d))%nat then mkDoc (mode d) (compute (mode d) (swap_at i (lay d))) else d.
 (* opening a document *)
 Definition open_clip (m : compat) (f : cforest) : doc := mkDoc m (compute m (map fresh_t f)).
 
